@@ -45,6 +45,7 @@ def cases(tier, seed):
     out += [{"sub": "multiform", "i": i} for i in range(n)]
     out += [{"sub": "multiform_wide", "i": i} for i in range(n // 2)]
     out += [{"sub": "multiform_history", "i": i} for i in range(n // 2)]
+    out += [{"sub": "multiform_long", "i": i} for i in range(3 if tier == "quick" else 40)]
     return out
 
 
@@ -86,7 +87,10 @@ def snap(op):
 
 
 def rand_scalar(pr):
-    return pr.choice([2, -3, 0.5, -1.25, 1.5 + 0.5j, np.float64(0.75), np.int64(2), 3.0])
+    # numpy scalar types of every kind COEFFICIENT_TYPES admits (np.integer includes the unsigned ones, whose unary minus wraps around);
+    # (no single-precision floats: under NumPy 2 promotion a float32 scalar legitimately yields float32 coefficients)
+    return pr.choice([2, -3, 0.5, -1.25, 1.5 + 0.5j, np.float64(0.75), np.int64(2), 3.0,
+                      np.uint8(3), np.uint64(2), np.uint16(5), np.int32(-2), np.int8(3), np.complex128(0.5 - 1.5j)])
 
 
 F_OPS = ["a+b", "a-b", "a*b", "s*a", "a*s", "-a", "s-a", "s+a", "a+s", "a-s", "a/s", "a**2", "a==b", "a!=b", "a+=b", "a*=b", "a-=b", "a+=b", "a+=b", "a+b"]
@@ -453,6 +457,45 @@ def run_multiform(case, ctx):
     ctx.sample({"sub": "multiform", "n": n, "A_terms": len(ta), "B_terms": len(tb)})
 
 
+def run_multiform_long(case, ctx):
+    """Long word lists (row counts around and beyond 2**15 / 2**16, what the tapering rotation of a few-hundred-term Hamiltonian produces):
+    collapse() and the product against a dictionary sum / the symbolic product."""
+    from tangelo.toolboxes.operators.multiformoperator import MultiformOperator
+    rng, pr, sd = case_rng(ctx.seed, "C16", "multiform_long", case["i"])
+    n = pr.randint(5, 9)
+    rows = pr.choice([32767, 32768, 32769, 40000, 65535, 65537, 70001])
+    n_distinct = pr.randint(200, 900)
+    words = rng.integers(0, 4, size=(n_distinct, n))
+    allw = words[rng.integers(0, n_distinct, size=rows)]
+    fac = rng.uniform(-1, 1, size=rows) + 1j * rng.uniform(-1, 1, size=rows) * (rng.random(rows) < 0.3)
+    uniq, ufac = MultiformOperator.collapse(allw.copy(), fac.copy())
+    ref = {}
+    for w, f in zip(map(tuple, allw.tolist()), fac.tolist()):
+        ref[w] = ref.get(w, 0) + f
+    gotc = {tuple(int(x) for x in w): f for w, f in zip(uniq, ufac)}
+    okc = len(gotc) == len(uniq) and set(gotc) == set(ref) and all(abs(gotc[k] - ref[k]) < 1e-9 for k in ref)
+    ctx.tab("collapse_rows", f"{rows} rows")
+    ctx.check("multiform_collapse", okc, f"collapse() of {rows} rows ({len(ref)} distinct words on {n} qubits) does not sum duplicate Pauli words correctly",
+              lambda: {"rows": rows, "n_qubits": n, "case_seed": sd, "n_distinct": len(ref), "n_returned": len(uniq),
+                       "worst": max((abs(gotc.get(k, 0) - ref[k]) for k in ref), default=0)})
+    # product of two operators with about 190 x 190 > 2**15 term pairs
+    ka, kb = pr.randint(182, 200), pr.randint(182, 200)
+    ta = gen.random_qubit_terms(pr, n, ka, complex_coeffs=True)
+    tb = gen.random_qubit_terms(pr, n, kb)
+    a, b = gen.to_qubit_operator(ta), gen.to_qubit_operator(tb)
+    ma, mb = MultiformOperator.from_qubitop(a, n), MultiformOperator.from_qubitop(b, n)
+    prod = ma * mb
+    sym = a * b
+    sym.compress(abs_tol=1e-12)
+    got = {t: c for t, c in prod.terms.items() if abs(c) > 1e-10}
+    exp = {t: c for t, c in sym.terms.items() if abs(c) > 1e-10}
+    ok = set(got) == set(exp) and all(abs(got[t] - exp[t]) < 1e-8 for t in exp)
+    ctx.tab("product_term_pairs", f"{'>' if len(a.terms) * len(b.terms) > 32767 else '<='} 2**15 pairs")
+    ctx.check("multiform_product", ok, f"MultiformOperator product of {len(a.terms)} x {len(b.terms)} terms on {n} qubits differs from the symbolic product",
+              lambda: {"n_qubits": n, "case_seed": sd, "terms_a": len(a.terms), "terms_b": len(b.terms), "n_got": len(got), "n_expected": len(exp)})
+    ctx.nontrivial(("multiform_long", n, rows, case["i"]))
+
+
 def run_multiform_wide(case, ctx):
     """Array form on wide registers (20..70 qubits, sparse words): product, collapse and commutation against the symbolic algebra."""
     from tangelo.toolboxes.operators import QubitOperator as TQ
@@ -608,4 +651,4 @@ def run_repo_tests(case, ctx):
 
 
 def run_case(case, ctx):
-    {"fermion": run_fermion, "qubit": run_qubit, "multiform": run_multiform, "multiform_wide": run_multiform_wide, "multiform_history": run_multiform_history, "repo_tests": run_repo_tests}[case["sub"]](case, ctx)
+    {"fermion": run_fermion, "qubit": run_qubit, "multiform": run_multiform, "multiform_wide": run_multiform_wide, "multiform_long": run_multiform_long, "multiform_history": run_multiform_history, "repo_tests": run_repo_tests}[case["sub"]](case, ctx)
